@@ -7,10 +7,10 @@ CONSTANTS
   Genesis <- GenE
   HasLock <- LockE
   Ops <- OpsEM
-  MaxMut = 3
+  MaxMut = 2
   MaxSnap = 3
   MaxDepth = 2
-  MaxTx = 1
+  MaxTx = 2
   FrameAddr <- FrE
   NewAddrs <- NewE
   XferTo <- XferEM
